@@ -22,7 +22,7 @@ RULE = ("broadband AP contents (random walk + white noise + slow oscillations, n
 ASSUMPTIONS = ["reference low-pass = the converter's own published design (2nd order Butterworth, Wn=0.2 re. AP Nyquist) applied forward-backward to "
                "the WHOLE trace with scipy.signal.sosfiltfilt", "'away from the two file edges' = 50 LF samples (600 AP samples) at either end",
                "1 LSB tolerance: bound < 1 + 1e-3 to absorb the float32 calibration round trip"]
-REQUIRED = {"lf_files_compared": 12, "reruns_same_object": 3, "window_pairs_compared": 6, "sync_columns_compared": 12, "lf_meta_checked": 12, "reference_compared": 12, "int16_wide_contents": 2, "long_cbin_cases": 1, "calibrated_rate_headers": 1, "saved_channel_subsets": 1, "four_digit_rows": 1}
+REQUIRED = {"lf_files_compared": 12, "reruns_same_object": 3, "window_pairs_compared": 6, "sync_columns_compared": 12, "lf_meta_checked": 12, "reference_compared": 12, "int16_wide_contents": 2, "long_cbin_cases": 1, "calibrated_rate_headers": 1, "saved_channel_subsets": 1, "four_digit_rows": 1, "limited_runs_compared": 10}
 CASE_TIMEOUT = 200.0
 MAX_PROCS = 12
 
@@ -247,6 +247,37 @@ def run_case(case):
             except Exception as e:
                 res.exception("lfp:meta:exception", e, f"{label} shank {s}")
         outs[w] = per
+        shutil.rmtree(root, ignore_errors=True)
+    # a run limited to the first N samples of the recording (init_params(nsamples=N)): the LF stream describes those N samples -
+    # ceil(N/12) rows, every 12th sync word up to N, the low-passed trace away from the ends (round 19)
+    if ns > 4000:
+        N = int(rng.integers(ns // 3, ns - 700))
+        w = wsel[0]
+        root = d / "limited"
+        label = f"{label0} window={w} nsamples={N}"
+        try:
+            b, rec = np2.build(rng, root, kind=kind, ns=ns, gain=gain, sites=sites, raw=raw, fs=fs_hdr, extra_meta=xmeta)
+            conv = neuropixel.NP2Converter(b, post_check=False, compress=False, delete_original=False)
+            conv.init_params(nsamples=N, nwindow=w)
+            st = conv.process()
+            conv.sr.close()
+            res.check(st == 1, "lfp:status", f"{label}: process() returned {st}")
+            cols = np2.shank_columns(rec) if kind == "NP2.4" else {0: np.arange(nap + 1)}
+            nlfN = -(-N // 12)
+            for s, c in cols.items():
+                folder = root / (f"probe00{chr(97 + s)}" if kind == "NP2.4" else "probe00")
+                f = folder / (np2.NAME.replace(".ap", ".lf") + ".bin")
+                got = np2.read_int16(f, len(c))
+                res.count("limited_runs_compared")
+                if got.ndim != 2 or got.shape != (nlfN, len(c)):
+                    res.violation("lfp:rows:limited-run", f"{label}: shank {s}: LF file holds {got.shape}, expected ({nlfN}, {len(c)}) = ceil(nsamples/12) rows")
+                    continue
+                res.check(np.array_equal(got[:, -1], raw[:N:12, -1]), "lfp:sync:limited-run", f"{label}: shank {s}: LF sync column is not every 12th AP sync word of the first {N} samples")
+                e = 50
+                dev = np.max(np.abs(got[e:-e, :-1].astype(np.float64) - ref[e:nlfN - e][:, c[:-1]]))
+                res.check(dev < 1 + 1e-3, "lfp:reference:limited-run", f"{label}: shank {s}: LF differs from low-pass+decimation of the trace by {dev:.3f} LSB")
+        except Exception as e:
+            res.exception("lfp:exception:limited-run", e, label)
         shutil.rmtree(root, ignore_errors=True)
     ws = sorted(outs)
     for i in range(len(ws)):
